@@ -212,6 +212,129 @@ theorem static_sound (c : Cfg) (b : Body) (v : Value) (bs : Bytes) (n : Nat)
     (hs : staticBody b = some n) (he : encBody c b v = .ok bs) : 8 * bs.length = 8 * n := by
   rw [encBody_static c b v bs n hs he]
 
+
+/-! ### what "dynamic" and "unknown" mean (the model of `annotate_field`) -/
+
+/-- a field whose classification is inherited from the declaration(s) it is typed by -/
+def typedBy (f : Field) : Option (String × Nat) :=
+  match f.desc with
+  | .typedef _ t | .fixedEnum t _ | .group t _ => some (t, 1)
+  | .array _ none (some t) _ (some n) => some (t, n)
+  | _ => none
+
+/-- **A part classified as dynamically sized is delimited**: by a condition flag (optional field), by a
+    size field (payload / body), by a size or count field (array without a constant count) — or it takes
+    its classification from the declaration it is typed by (a struct that is dynamic for one of these
+    reasons, or a custom field without a declared width) -/
+theorem dynamic_delimited (env : SEnv) (fs : List Field) (f : Field) (h : fieldSize env fs f = some .dynamic) :
+    f.cond.isSome = true ∨
+    ((f.desc = .body ∨ ∃ m, f.desc = .payload m) ∧ hasPayloadSize fs = true) ∨
+    (∃ id w t m, f.desc = .array id w t m none ∧ hasArraySize fs id = true) ∨
+    (∃ t n s, typedBy f = some (t, n) ∧ env.lookup t = some s ∧ s.total = .dynamic) := by
+  simp only [fieldSize] at h
+  split at h
+  · exact Or.inl (by assumption)
+  · right
+    split at h
+    all_goals try (simp only [Option.some.injEq] at h; cases h)
+    · rename_i hd; split at h <;> simp_all
+    · rename_i m hd; split at h <;> simp_all
+    · rename_i id t hd
+      right; right
+      cases hl : env.lookup t with
+      | none => simp [hl] at h
+      | some s =>
+        simp only [hl, Option.map_some, Option.some.injEq] at h
+        exact ⟨t, 1, s, by simp [typedBy, hd], hl, h⟩
+    · rename_i t tag hd
+      right; right
+      cases hl : env.lookup t with
+      | none => simp [hl] at h
+      | some s =>
+        simp only [hl, Option.map_some, Option.some.injEq] at h
+        exact ⟨t, 1, s, by simp [typedBy, hd], hl, h⟩
+    · rename_i t cs hd
+      right; right
+      cases hl : env.lookup t with
+      | none => simp [hl] at h
+      | some s =>
+        simp only [hl, Option.map_some, Option.some.injEq] at h
+        exact ⟨t, 1, s, by simp [typedBy, hd], hl, h⟩
+    · rename_i id t m n hd
+      right; right
+      cases hl : env.lookup t with
+      | none => simp [hl] at h
+      | some s =>
+        simp only [hl, Option.map_some, Option.some.injEq] at h
+        refine ⟨t, n, s, by simp [typedBy, hd], hl, ?_⟩
+        cases hs : s.total with
+        | static a => simp [hs, Size.mulNat] at h
+        | dynamic => rfl
+        | unknown => simp [hs, Size.mulNat] at h
+    · rename_i id w t m hd
+      right; left
+      split at h
+      · exact ⟨id, w, t, m, hd, by assumption⟩
+      · cases h
+    · cases h
+
+/-- **A part is classified as of unknown size only when nothing delimits it**: a payload / body without
+    size field, an array with neither constant count nor size / count field — or a field typed by a
+    declaration that is itself of unknown size -/
+theorem unknown_only_undelimited (env : SEnv) (fs : List Field) (f : Field) (h : fieldSize env fs f = some .unknown) :
+    f.cond.isSome = false ∧
+    (((f.desc = .body ∨ ∃ m, f.desc = .payload m) ∧ hasPayloadSize fs = false) ∨
+     (∃ id w t m, f.desc = .array id w t m none ∧ hasArraySize fs id = false) ∨
+     (∃ t n s, typedBy f = some (t, n) ∧ env.lookup t = some s ∧ s.total = .unknown)) := by
+  simp only [fieldSize] at h
+  split at h
+  · cases h
+  · rename_i hc
+    refine ⟨by simpa using hc, ?_⟩
+    split at h
+    all_goals try (simp only [Option.some.injEq] at h; cases h)
+    · rename_i hd; split at h <;> simp_all
+    · rename_i m hd; split at h <;> simp_all
+    · rename_i id t hd
+      right; right
+      cases hl : env.lookup t with
+      | none => simp [hl] at h
+      | some s =>
+        simp only [hl, Option.map_some, Option.some.injEq] at h
+        exact ⟨t, 1, s, by simp [typedBy, hd], hl, h⟩
+    · rename_i t tag hd
+      right; right
+      cases hl : env.lookup t with
+      | none => simp [hl] at h
+      | some s =>
+        simp only [hl, Option.map_some, Option.some.injEq] at h
+        exact ⟨t, 1, s, by simp [typedBy, hd], hl, h⟩
+    · rename_i t cs hd
+      right; right
+      cases hl : env.lookup t with
+      | none => simp [hl] at h
+      | some s =>
+        simp only [hl, Option.map_some, Option.some.injEq] at h
+        exact ⟨t, 1, s, by simp [typedBy, hd], hl, h⟩
+    · rename_i id t m n hd
+      right; right
+      cases hl : env.lookup t with
+      | none => simp [hl] at h
+      | some s =>
+        simp only [hl, Option.map_some, Option.some.injEq] at h
+        refine ⟨t, n, s, by simp [typedBy, hd], hl, ?_⟩
+        cases hs : s.total with
+        | static a => simp [hs, Size.mulNat] at h
+        | dynamic => simp [hs, Size.mulNat] at h
+        | unknown => rfl
+    · rename_i id w t m hd
+      right; left
+      split at h
+      · cases h
+      · rename_i hna
+        exact ⟨id, w, t, m, hd, by simpa using hna⟩
+    · cases h
+
 /-- non-vacuity: `struct S { a: 3, b: 13, x: 16[2] }` is static, 6 octets -/
 example : staticBody (.root "S" (.cons (.chunk [.scalar "a" 3, .scalar "b" 13])
     (.cons (.array "x" (.scalar 16) (.static 2) (.static 2) none) .nil))) = some 6 := by rfl
